@@ -267,8 +267,8 @@ def grun(h, pre=None):
     dr = core.glist("(%s, %s)" % (B(a), core.gbool(b == "1")) for a, b in (h["decreq"] or []))
     evs = core.glist(gevent_run(h, o) for o in h["ops"])
     ex = core.glist("([%d;%d;%d]%%uint63, %s)" % (s["th"], s["ne"], s["na"], core.glist("(%d, %s)" % (int(c), B(i)) for c, i in s["outs"])) for s in h["steps"])
-    return ("{| pr_keccak := %s; pr_rec := %s; pr_dechb := %s; pr_decreq := %s; pr_disable := %s; pr_self := %s; pr_evs := %s; pr_expect := %s |}"
-            % (kc, rc, dh, dr, core.gbool(h["disable"]), B(h["self"]), evs, ex))
+    return ("{| pr_keccak := %s; pr_rec := %s; pr_dechb := %s; pr_decreq := %s; pr_disable := %s; pr_self := %s; pr_thr := %s; pr_evs := %s; pr_expect := %s |}"
+            % (kc, rc, dh, dr, core.gbool(h["disable"]), B(h["self"]), core.gz(h["thr"]), evs, ex))
 
 
 def describe_run(h, step):
@@ -514,6 +514,6 @@ def run(ctx):
         "protobuf decoding of the inner Heartbeat / ObservationRequest is an oracle (arbitrary function in the theorems, recorded table of proto.Unmarshal results in the runs)",
         "that a signature accepted for one purpose is not ALSO a valid signature for another digest needs Keccak collision resistance and ECDSA unforgeability: the theorems show the signed byte strings differ and exhibit the collision that equal digests would be; exercised with real keys, not proved",
         "the receive / dispatch loop of p2p.Run is executed for real (harness p2p_run) from a copy of the working tree's p2p.go in which only the transport is changed (QUIC import / option / two listen addresses -> TCP on 127.0.0.1; go-libp2p's defaults.go loses its unused QUIC default): libp2p, gossipsub (message signing, validation, forwarding) and the DHT bootstrap are the real libraries and trusted; the per-envelope synchronisation relies on gossipsub delivering a validated message to the local subscription before forwarding it",
-        "in the real-loop histories the node's own periodic heartbeat (15 s ticker) and the Cleanup ticker run asynchronously: the own entry (own guardian address, own peer id) is kept out of the compared table, test heartbeats carry Timestamps 10 days ahead so that Cleanup never removes them",
+        "in the real-loop histories the node's own periodic heartbeat (15 s ticker) and the Cleanup ticker run asynchronously: the own entry (own guardian address, own peer id) is kept out of the compared table, test heartbeats carry Timestamps 10 days ahead so that Cleanup never removes them, and entries with a Timestamp less than 5 days ahead (signed garbage that happens to decode) are compared on neither side (their insertion is still seen by the monitor, their removal by the ticker ignored)",
         "Cleanup's clock: stored Timestamps are rewritten to real-now minus a whole-second virtual age right before the call (DESIGN section 4); steps whose rewrite-to-call latency exceeded 500 ms are discarded and counted",
     ]
